@@ -57,6 +57,38 @@ func fileAfter(content []byte, pre [][]byte, variant int) (*text.File, *parsley.
 }
 
 var placeVariant int
+var nbig int
+
+// large preceding files are recorded by their size only: [-1, size] stands for size bytes 'a' with a line feed every 61 bytes
+func bigFile(size int) []byte {
+	b := make([]byte, size)
+	for i := range b {
+		b[i] = 'a'
+		if i%61 == 60 {
+			b[i] = '\n'
+		}
+	}
+	return b
+}
+
+func preJ(pre [][]byte) [][]int {
+	pj := [][]int{}
+	for _, x := range pre {
+		if len(x) > 4096 {
+			pj = append(pj, []int{-1, len(x)})
+		} else {
+			pj = append(pj, intsOf(x))
+		}
+	}
+	return pj
+}
+
+func preBytes(x []int) []byte {
+	if len(x) == 2 && x[0] == -1 {
+		return bigFile(x[1])
+	}
+	return bytesOf(x)
+}
 
 func placeObserve(p parsley.Parser, content []byte, pre [][]byte, eval bool) (J, int) {
 	o := J{"ok": false, "trees": []interface{}{}, "err": []interface{}{}, "text": "", "val": "", "calls": 0}
@@ -191,11 +223,7 @@ func placeMain(mode string, a args) {
 		placeVariant = r.Intn(4)
 		oa, ba := placeObserve(p, content, nil, eval)
 		ob, bb := placeObserve(p, content, pre, eval)
-		pj := [][]int{}
-		for _, x := range pre {
-			pj = append(pj, intsOf(x))
-		}
-		o.put(J{"wl": wl, "d": bb - ba, "content": intsOf(content), "pre": pj, "a": oa, "b": ob})
+		o.put(J{"wl": wl, "d": bb - ba, "content": intsOf(content), "pre": preJ(pre), "a": oa, "b": ob})
 	}
 	randPre := func() [][]byte {
 		k := 1 + r.Intn(3)
@@ -206,6 +234,10 @@ func placeMain(mode string, a args) {
 				b[j] = "ab \n\r{}1"[r.Intn(8)]
 			}
 			pre = append(pre, b)
+		}
+		// a large file in front: base offsets beyond 2^20 / 2^24
+		if nbig++; nbig%7 == 3 {
+			pre = append(pre, bigFile([]int{1<<20 + r.Intn(9), 3<<20 + 1, 1<<24 + 5}[r.Intn(3)]))
 		}
 		return pre
 	}
@@ -224,7 +256,7 @@ func placeMain(mode string, a args) {
 			json.Unmarshal(line, &c)
 			var pre [][]byte
 			for _, x := range c.Pre {
-				pre = append(pre, bytesOf(x))
+				pre = append(pre, preBytes(x))
 			}
 			if w, ok := byName[c.Wl]; ok {
 				emit(c.Wl, w.p, w.eval, bytesOf(c.Content), pre)
@@ -265,7 +297,22 @@ func placeMain(mode string, a args) {
 		G := trimGrammar(toks, lm, rm)
 		ps := build(G, t)
 		o2 := o.n
-		emit("trim", ps[len(G)-1], false, trimText(toks, gaps), randPre())
+		txt := trimText(toks, gaps)
+		if r.Intn(2) == 0 {
+			// a token that is not the expected one: the operand of a trim fails in front of / behind whitespace
+			if q := mutate(r, txt); len(q) != len(txt) || r.Intn(2) == 0 {
+				txt = q
+			} else if len(txt) > 0 {
+				txt = append([]byte{}, txt...)
+				for tries := 0; tries < 8; tries++ {
+					if k := r.Intn(len(txt)); txt[k] >= 'c' && txt[k] <= 'e' {
+						txt[k] = 'z'
+						break
+					}
+				}
+			}
+		}
+		emit("trim", ps[len(G)-1], false, txt, randPre())
 		_ = o2
 	}
 	// left-recursive grammars: Remaining enters curtailment, a base-dependent Remaining changes results or work
@@ -287,11 +334,7 @@ func placeMain(mode string, a args) {
 		placeVariant = r.Intn(4)
 		oa, ba := placeObserve(ps[root-1], bytesOf(w), nil, false)
 		ob, bb := placeObserve(ps[root-1], bytesOf(w), pre, false)
-		pj := [][]int{}
-		for _, x := range pre {
-			pj = append(pj, intsOf(x))
-		}
-		o.put(J{"wl": "leftrec", "d": bb - ba, "content": w, "pre": pj, "G": G, "a": oa, "b": ob})
+		o.put(J{"wl": "leftrec", "d": bb - ba, "content": w, "pre": preJ(pre), "G": G, "a": oa, "b": ob})
 		made++
 	}
 	o.close()
